@@ -76,6 +76,8 @@ def _lay(a, layout):
     a = np.asarray(a, dtype=float)
     if layout == "f":
         return np.asfortranarray(a)
+    if layout == "negstride":
+        return np.ascontiguousarray(a[::-1])[::-1]
     if layout == "strided_ro":
         big = np.full(tuple(2 * k for k in a.shape), 7.5, dtype=float)
         view = big[tuple(slice(None, None, 2) for _ in a.shape)]
@@ -90,14 +92,15 @@ def theta_from_case(kind, c):
     from batchie.models.sparse_combo_interaction import SparseDrugComboInteractionMCMCSample
     d = c["D"]
     lay = c.get("layout", "c")
+    sc_ = (lambda x: np.float64(x)) if lay in ("f", "negstride") else (lambda x: x)     # numpy scalars vs python floats
     if kind == "sdc":
         return SparseDrugComboMCMCSample(
             W=_lay(_mat(c["W"], d), lay), W0=_lay(np.array([S.from_bits(b) for b in c["W0"]], dtype=float), lay),
             V2=_lay(_mat(c["V2"], d), lay), V1=_lay(_mat(c["V1"], d), lay),
             V0=_lay(np.array([S.from_bits(b) for b in c["V0"]], dtype=float), lay),
-            alpha=S.from_bits(c["alpha"]), precision=S.from_bits(c["precision"]))
+            alpha=sc_(S.from_bits(c["alpha"])), precision=sc_(S.from_bits(c["precision"])))
     return SparseDrugComboInteractionMCMCSample(
-        W=_lay(_mat(c["W"], d), lay), V2=_lay(_mat(c["V2"], d), lay), precision=S.from_bits(c["precision"]),
+        W=_lay(_mat(c["W"], d), lay), V2=_lay(_mat(c["V2"], d), lay), precision=sc_(S.from_bits(c["precision"])),
         single_effect_lookup={(int(a), int(b)): S.from_bits(v) for a, b, v in c["lookup"]})
 
 
@@ -162,10 +165,10 @@ def rand_value(rng, regime):
 
 def gen_theta_case(rng, kind, n_s, n_t, regime=None):
     regime = regime or rng.choice(["normal", "normal", "normal", "tiny", "large", "mixed", "grid"])
-    d = rng.choice([0, 1, 1, 2, 2, 3, 5])
+    d = rng.choice([0, 1, 1, 2, 2, 3, 5, 9])
     val = lambda: fbits(rand_value(rng, regime))  # noqa: E731
     prec = fbits(rng.choice([1.0, 0.37, 2.5, 1e-12, 1e12, 10.0 ** rng.uniform(-30, 30), abs(rng.gauss(0, 1)) + 1e-3]))
-    layout = rng.choice(["c", "c", "c", "f", "strided_ro"])
+    layout = rng.choice(["c", "c", "c", "f", "strided_ro", "negstride"])
     if kind == "sdc":
         return {"W": [[val() for _ in range(d)] for _ in range(n_s)], "W0": [val() for _ in range(n_s)],
                 "V2": [[val() for _ in range(d)] for _ in range(n_t)], "V1": [[val() for _ in range(d)] for _ in range(n_t)],
@@ -185,10 +188,12 @@ def gen_raw(rng, arity, n_s, n_t, n_max):
     """raw screen whose ids lie in [-1, n_t) x [0, n_s): every treatment/sample of the pools is listed in the
     mappings of a pool-covering screen, so the ids do not depend on which rows were drawn"""
     n = rng.choice([0, 1, 2]) if rng.random() < 0.08 else rng.randint(3, n_max)
-    tpool = [("t%d" % i, 1.0 + (i % 3)) for i in range(n_t)]
+    suffix = LONG_SUFFIX if rng.random() < 0.2 else ""      # names longer than any small fixed-width buffer (>= 25 chars)
+    no_control = arity == 2 and n_t > 0 and rng.random() < 0.08   # a screen without any control
+    tpool = [("t%d%s" % (i, suffix), 1.0 + (i % 3)) for i in range(n_t)]
     ctrl = "control"
     ctrl_cells = CTRL_CELLS
-    spool = ["s%d" % i for i in range(n_s)]
+    spool = ["s%d%s" % (i, suffix) for i in range(n_s)]
     tn, td, sn, pn = [], [], [], []
     n_pl = rng.randint(1, 3)
     for r in range(n):
@@ -202,6 +207,7 @@ def gen_raw(rng, arity, n_s, n_t, n_max):
             else:
                 is_ctrl = (mode < 0.2 and c == 0) or (0.2 <= mode < 0.4 and c == 1) or (0.4 <= mode < 0.5 and c <= 1) \
                     or (mode >= 0.9 and rng.random() < 0.3)
+                is_ctrl = is_ctrl and not no_control
             cells.append(rng.choice(ctrl_cells) if is_ctrl else rng.choice(tpool))
         if arity >= 2 and rng.random() < 0.15 and n_t > 0:
             cells[1] = cells[0]  # the same agent twice
@@ -209,9 +215,17 @@ def gen_raw(rng, arity, n_s, n_t, n_max):
         td.append([c[1] for c in cells])
         sn.append(rng.choice(spool))
         pn.append("p%d" % rng.randrange(n_pl))
+    if n >= 3 and n_s >= 2 and rng.random() < 0.3:
+        # row order: first and last row share a sample, a row in between has another one (A,B,A / A,B,B,A / A,?,B,?,A)
+        a, b = rng.sample(spool, 2)
+        sn[0] = sn[-1] = a
+        sn[rng.randrange(1, n - 1)] = b
+        if n >= 4 and rng.random() < 0.5:
+            for k in range(1, n - 1):
+                sn[k] = b
     raw = dict(ctrl=ctrl, arity=arity, tnames=tn, tdoses=td, snames=sn, pnames=pn,
                obs=[rng.random() for _ in range(n)], mask=None,
-               tmap=None, smap=None, n_s=n_s, n_t=n_t)
+               tmap=None, smap=None, n_s=n_s, n_t=n_t, suffix=suffix)
     return decorate_raw(rng, raw)
 
 
@@ -236,6 +250,7 @@ def decorate_raw(rng, raw):
     return raw
 
 
+LONG_SUFFIX = "_" + "n" * 27
 CTRL_CELLS = [("control", 0.0), ("control", 2.0), ("t0", 0.0), ("zz", -1.0), ("control", 1.0)]
 _MAP_CACHE = {}
 
@@ -254,17 +269,18 @@ def mappings_for(raw):
         sid = np.array([enc["sperm"][int(i)] for i in sm[1]], dtype=np.asarray(sm[1]).dtype)
         o = np.array(enc["srow"], dtype=int)
         return tm2, (np.asarray(sm[0])[o], sid[o])
-    if (n_t, n_s) in _MAP_CACHE:
-        return _MAP_CACHE[(n_t, n_s)]
-    rows_t = [("t%d" % i, 1.0 + (i % 3)) for i in range(n_t)] + CTRL_CELLS
+    suffix = raw.get("suffix", "")
+    if (n_t, n_s, suffix) in _MAP_CACHE:
+        return _MAP_CACHE[(n_t, n_s, suffix)]
+    rows_t = [("t%d%s" % (i, suffix), 1.0 + (i % 3)) for i in range(n_t)] + CTRL_CELLS
     k = max(len(rows_t), n_s)
     big = dict(ctrl="control", arity=1,
                tnames=[[rows_t[i % len(rows_t)][0]] for i in range(k)],
                tdoses=[[rows_t[i % len(rows_t)][1]] for i in range(k)],
-               snames=["s%d" % (i % n_s) for i in range(k)], pnames=["p"] * k, obs=None, mask=None)
+               snames=["s%d%s" % (i % n_s, suffix) for i in range(k)], pnames=["p"] * k, obs=None, mask=None)
     s = S.build(big)
-    _MAP_CACHE[(n_t, n_s)] = (s.treatment_mapping, s.sample_mapping)
-    return _MAP_CACHE[(n_t, n_s)]
+    _MAP_CACHE[(n_t, n_s, suffix)] = (s.treatment_mapping, s.sample_mapping)
+    return _MAP_CACHE[(n_t, n_s, suffix)]
 
 
 def build_screen(raw, tnames=None, tdoses=None, rows=None, arity=None):
@@ -337,21 +353,40 @@ def viab_tol(scale):
 
 # ----------------------------------------------------------------------------- snapshots (non-mutation)
 
+def deep_snap(obj, depth=0):
+    """bit-exact, order-preserving snapshot of EVERY attribute (enumerated by introspection, not by a hand-written list)"""
+    if isinstance(obj, np.ndarray):
+        return ("nd", obj.dtype.str, obj.shape, obj.tobytes())
+    if isinstance(obj, (tuple, list)):
+        return (type(obj).__name__,) + tuple(deep_snap(x, depth) for x in obj)
+    if isinstance(obj, dict):
+        return ("dict",) + tuple((deep_snap(k, depth), deep_snap(v, depth)) for k, v in obj.items())
+    if isinstance(obj, (float, np.floating)):
+        return ("f", fbits(obj))
+    if isinstance(obj, (int, str, bool, type(None), np.generic)):
+        return (type(obj).__name__, repr(obj))
+    if hasattr(obj, "__dict__") and depth < 2:
+        return (type(obj).__name__,) + tuple((k, deep_snap(v, depth + 1)) for k, v in sorted(vars(obj).items()))
+    return ("obj", type(obj).__name__)
+
+
 def snap_theta(kind, th):
-    if kind == "sdc":
-        return (th.W.tobytes(), th.W0.tobytes(), th.V2.tobytes(), th.V1.tobytes(), th.V0.tobytes(),
-                fbits(th.alpha), fbits(th.precision), th.W.shape, th.V2.shape, th.V1.shape)
-    return (th.W.tobytes(), th.V2.tobytes(), fbits(th.precision), th.W.shape, th.V2.shape,
-            tuple((int(k[0]), int(k[1]), fbits(v)) for k, v in th.single_effect_lookup.items()))
+    return deep_snap(th)
 
 
 def snap_screen(base):
-    """the underlying Screen's arrays (views share them)"""
-    return (np.asarray(base.treatment_ids).tobytes(), np.asarray(base.sample_ids).tobytes(),
-            np.asarray(base.plate_ids).tobytes(), np.asarray(base.observations).tobytes(),
-            np.asarray(base.observation_mask).tobytes(), np.asarray(base.treatment_names).tobytes(),
-            np.asarray(base.treatment_doses).tobytes(), np.asarray(base.sample_names).tobytes(),
-            tuple(np.asarray(x).tobytes() for x in base.treatment_mapping), tuple(np.asarray(x).tobytes() for x in base.sample_mapping))
+    """every attribute of the underlying Screen (views share them)"""
+    return deep_snap(base)
+
+
+def arrays_of(obj):
+    out = []
+    for v in vars(obj).values():
+        if isinstance(v, np.ndarray):
+            out.append(v)
+        elif isinstance(v, (tuple, list)):
+            out += [x for x in v if isinstance(x, np.ndarray)]
+    return out
 
 
 METHODS = {"mean": "predict_conditional_mean", "viab": "predict_viability", "var": "predict_conditional_variance"}
@@ -364,6 +399,15 @@ class Runner:
         self.lines = lines     # list of (driver line, impl value, tol spec, where) or None (oracle only)
         self.kind = case["kind"]
         self.failed = False
+        self.kept = []         # (result array, its values when returned, method): re-read after all later calls
+
+    def recheck_kept(self):
+        for arr, vals, what in self.kept:
+            now = [float(x) for x in np.asarray(arr, dtype=float).reshape(-1)]
+            if len(now) != len(vals) or any(fbits(a) != fbits(b) for a, b in zip(now, vals)):
+                self.fail("an earlier prediction result changed after later calls", {"method": what, "then": vals[:6], "now": now[:6]},
+                          "results are independent arrays", signature="C09:aliasing")
+                return
 
     def fail(self, what, observed, required, signature=None):
         self.failed = True
@@ -373,8 +417,17 @@ class Runner:
         """one prediction call with the purity check around it; returns list of floats or 'err:X'"""
         b_th, b_sc = snap_theta(self.kind, th), snap_screen(base)
         try:
-            out = getattr(th, METHODS[what])(sc)
-            out = [float(x) for x in np.asarray(out, dtype=float).reshape(-1)]
+            raw_out = getattr(th, METHODS[what])(sc)
+            out = [float(x) for x in np.asarray(raw_out, dtype=float).reshape(-1)]
+            if isinstance(raw_out, np.ndarray):
+                # the result must be fresh storage: not a view of theta / of the screen / of an earlier result
+                for a in arrays_of(th) + arrays_of(base) + [k[0] for k in self.kept]:
+                    if a.size and raw_out.size and np.shares_memory(raw_out, a):
+                        self.fail("a prediction shares storage with theta, the screen or an earlier result", {"method": what}, "fresh array",
+                                  signature="C09:aliasing")
+                        break
+                if len(self.kept) < 40:
+                    self.kept.append((raw_out, list(out), what))
         except Exception as e:  # noqa
             out = err_tok(e)
         if snap_theta(self.kind, th) != b_th:
@@ -386,6 +439,18 @@ class Runner:
     def tie(self, line, impl, scales, what, where, matrix=False):
         if self.lines is not None:
             self.lines.append((line, impl, scales, what, where, matrix, self.case))
+
+
+def aba_triple(sids):
+    """(i, j, k), i < j < k, with sids[i] == sids[k] != sids[j] (first/last of the triple share a sample), else None"""
+    n = len(sids)
+    for i in range(n):
+        for k in range(n - 1, i + 1, -1):
+            if sids[k] == sids[i]:
+                for j in range(i + 1, k):
+                    if sids[j] != sids[i]:
+                        return (i, j, k)
+    return None
 
 
 def tol_for(what, scale):
@@ -487,6 +552,16 @@ def run_case(case, res, lines):
         views.append(("inverted subset", sub.invert(), np.where(~m1)[0]))
         for p in base.plates:
             views.append(("plate", p, np.where(np.asarray(base.plate_ids) == p.plate_id)[0]))
+        # every row alone (at most 6), and -- when some sample brackets another one (A..B..A) -- exactly such a triple
+        for i in list(range(n))[:3] + list(range(n))[-3:]:
+            one = np.zeros(n, dtype=bool)
+            one[i] = True
+            views.append(("single-row subset", base.subset(one), np.array([i])))
+        aba = aba_triple([int(x) for x in sids])
+        if aba is not None:
+            m3 = np.zeros(n, dtype=bool)
+            m3[list(aba)] = True
+            views.append(("A,B,A subset", base.subset(m3), np.where(m3)[0]))
         for name, v, idx in views:
             for what in ok_whole:
                 got = R.call(th, what, v, base)
@@ -680,6 +755,17 @@ def run_case(case, res, lines):
         R.tie(hl % "all", allp_l, scales, what, "all", matrix=True)
         if fn_avg is not None:
             R.tie(hl % "avg", avg, scales, what, "avg")
+    # ---- object reuse: after all those calls on other screens / sizes the SAME sample object still predicts the whole
+    #      screen as it did at first, and as a fresh sample object built from the same values does ----------------
+    if n and ok_whole:
+        fresh_th = theta_from_case(kind, case["thetas"][0])
+        for what in ok_whole:
+            for who, t in (("the reused sample object", th), ("a fresh sample object", fresh_th)):
+                got = R.call(t, what, base, base)
+                if isinstance(got, str) or not same(got, ok_whole[what]):
+                    R.fail("prediction of %s differs from the first prediction of the whole screen" % who,
+                           {"method": what, "got": got if isinstance(got, str) else got[:8]}, ok_whole[what][:8], signature="C09:object-reuse")
+    R.recheck_kept()
     return R
 
 
@@ -742,6 +828,8 @@ def gen_case(rng, idx):
     kind = "sdc" if rng.random() < 0.6 else "sdci"
     n_s = rng.randint(1, 4)
     n_t = rng.choice([0, 1, 2, 3, 4, 5, 6]) if rng.random() < 0.9 else 1
+    if rng.random() < 0.08:
+        n_s, n_t = 11, rng.choice([11, 12])     # two-digit names: "s10" < "s2", "t10" < "t2" in the mapping order
     if kind == "sdc":
         arity = rng.choice([1, 2, 2, 2, 2, 3]) if rng.random() < 0.9 else 2
     else:
@@ -837,6 +925,43 @@ def _run(ctx, res):
         if case["short_theta"]:
             res.count("theta.too_small")
         res.count("theta.layout.%s" % case["thetas"][0].get("layout", "c"))
+        lay0 = case["thetas"][0].get("layout", "c")
+        sid_l = [int(x) for x in build_screen(raw).sample_ids] if d["rows"] else []
+        tid_a = np.asarray(build_screen(raw).treatment_ids) if d["rows"] else np.zeros((0, d["arity"]), dtype=int)
+        ok_ar = (d["arity"] in (1, 2)) if d["kind"] == "sdc" else d["arity"] == 2
+        if d["rows"] and ok_ar:
+            res.count("class.object_reuse")            # same sample object / holder on whole, subsets, plates, other screens, whole again
+            res.count("class.input_mutation_aliasing")  # deep snapshots around every call, shares_memory, re-read of earlier results
+            res.count("class.attribute_completeness")   # snapshots enumerate vars(theta) / vars(screen)
+        if lay0 != "c" and ok_ar and d["rows"]:
+            res.count("class.memory_layout")
+        if raw.get("suffix") and d["rows"]:
+            res.count("class.long_names")
+        if ok_ar and d["rows"]:
+            used = set(int(x) for x in tid_a.reshape(-1)) - {-1}
+            if raw.get("enc"):
+                res.count("class.encoding.permuted")
+            if used and used != set(range(len(used))):
+                res.count("class.encoding.id_gaps")
+            if d["arity"] == 2 and not (tid_a == -1).any():
+                res.count("class.encoding.no_control")
+            if any(nm == "control" and ds > 0 for rn, rd in zip(raw["tnames"], raw["tdoses"]) for nm, ds in zip(rn, rd)):
+                res.count("class.encoding.named_control_positive_dose")
+            if aba_triple(sid_l) is not None:
+                res.count("class.row_order.sample_ABA")
+                if len(sid_l) >= 3 and sid_l[0] == sid_l[-1] and any(x != sid_l[0] for x in sid_l[1:-1]):
+                    res.count("class.row_order.sample_ABA_whole_screen")
+            if len(set(raw["pnames"])) > 1 and any(raw["pnames"][k] != raw["pnames"][k + 1] and raw["pnames"][k] in raw["pnames"][k + 2:]
+                                                   for k in range(len(raw["pnames"]) - 2)):
+                res.count("class.row_order.plates_interleaved")
+            if 0 in sid_l and 0 in used:
+                res.count("class.falsy.id0")
+            if raw["n_s"] >= 11:
+                res.count("class.size.two_digit_names")
+            if d["D"] >= 8:
+                res.count("class.size.D_ge_8")
+        if d["rows"] <= 1 or case["held"] <= 1 or d["D"] == 0:
+            res.count("class.falsy.n0_n1_k0_k1_D0")
         if raw.get("enc"):
             res.count("screen.nondefault_encoding")
         if raw.get("mask") is not None and not all(raw["mask"]):
